@@ -396,7 +396,9 @@ def run_property(prop_id: str, tier: str, seed: int, jobs: int, budget_s: float 
     if errors:
         for idx, e in errors[:5]:
             print(f"HARNESS-ERROR shard {idx} ({json.dumps(shards[idx])[:200]}):\n{e}", file=sys.stderr)
-        return 2
+        # a violation found by the shards that did finish stays a violation (exit 1, VIOLATION lines above); only a run
+        # without any violation is reported as a pure harness error
+        return 1 if new_violations else 2
     # vacuity self-check: an exploration in which nothing differed decides nothing
     if tot["evaluations"] > 0 and (len(nontrivial) < 2 or len(outcomes) < 2) and not new_violations:
         print(
